@@ -764,8 +764,8 @@ class BufferAsyncCalls(Generic[T]):
                 if await self._run_func(inputs):
                     return
             except aio.CancelledError:
-                if not self._flush:
-                    raise  # Not cancelled by wait(), most likely shutdown
+                if not self._flush or _being_cancelled():
+                    raise  # Not (only) cancelled by wait(), likely shutdown
                 self._flush = False
                 if await self._run_func(inputs):
                     return
